@@ -107,6 +107,52 @@ print('RESULT ' + json.dumps({'steps': steps}))
 """
 INPROC_STATES = ["valid", "missing", "stale", "oldver", "staleold"]
 
+# a parser class that EXTENDS the grammar (the documented extension mechanism: dialect classes are mixed in the same way) used next to
+# the plain class in one interpreter, in every order of constructions: each object runs with the tables of ITS OWN grammar
+_EXT_MODULE = '''
+from simple_ddl_parser import DDLParser
+
+
+class ExtParser(DDLParser):
+    def p_expression_drop_sequence(self, p):
+        """expr : DROP SEQUENCE id
+        | DROP SEQUENCE id DOT id
+        """
+        p[0] = {"schema": p[3] if len(p) > 4 else None, "sequence_name": p[len(p) - 1], "dropped": True}
+'''
+_WORK_EXT = r"""
+import json, logging, sys
+root, tmp, order = sys.argv[1], sys.argv[2], json.loads(sys.argv[3])
+sys.path.insert(0, root); sys.path.insert(0, tmp)
+logging.disable(logging.CRITICAL)
+from ply import yacc
+from simple_ddl_parser import DDLParser
+from ext_parser import ExtParser
+ddl = "CREATE TABLE t (a int);\nDROP SEQUENCE s1.seq;\nCREATE SEQUENCE s1.q START 1;\n"
+prods = lambda parser: [(p.str, p.name, p.len, p.func) for p in parser.productions]
+nonempty = lambda d: {str(k): v for k, v in d.items() if v}
+fresh = {}
+def fresh_tables(cls):
+    if cls.__name__ not in fresh:
+        fresh[cls.__name__] = yacc.yacc(module=cls.__new__(cls), debug=False, write_tables=False, tabmodule="no_such_table_module", errorlog=yacc.NullLogger())
+    return fresh[cls.__name__]
+steps = []
+for who in order:
+    cls = ExtParser if who == "E" else DDLParser
+    try:
+        obj = cls(ddl)
+        res = obj.run()
+        f = fresh_tables(cls)
+        ok = prods(obj.yacc) == prods(f) and nonempty(obj.yacc.action) == nonempty(f.action) and nonempty(obj.yacc.goto) == nonempty(f.goto)
+        steps.append({"who": who, "result": res, "tables_ok": ok, "n_productions": [len(obj.yacc.productions), len(f.productions)]})
+    except Exception as e:
+        steps.append({"who": who, "error": type(e).__name__ + ": " + str(e)[:200]})
+print("RESULT " + json.dumps(steps, default=str))
+"""
+EXT_ORDERS = [list(o) for k in (1, 2, 3) for o in itertools.product("BE", repeat=k) if "E" in o]
+EXT_EXPECT = {"B": [{"sequence_name": "q", "schema": "s1", "start": 1}],
+              "E": [{"schema": "s1", "sequence_name": "seq", "dropped": True}, {"sequence_name": "q", "schema": "s1", "start": 1}]}
+
 
 def bounds(tier):
     return {"cache_states": len(STATES), "fault_sequence_length": 3 if tier == "thorough" else 2,
@@ -135,6 +181,8 @@ def gen_cases(tier):
             if k == 3 and seq[0] == "valid":
                 continue
             cases.append({"kind": "seq", "heavy": True, "seq": list(seq), "full": tier == "thorough" or k == 1})
+    for order in EXT_ORDERS:
+        cases.append({"kind": "ext", "heavy": True, "order": order})
     for k in ((2, 3) if tier == "thorough" else (2,)):
         for seq in itertools.product(INPROC_STATES, repeat=k):
             cases.append({"kind": "inproc", "heavy": True, "seq": list(seq)})
@@ -305,6 +353,37 @@ def evaluate(case):
                 D.append(diff("workload results with the tree's cache", "results-differ-from-fresh-tables", "equal digests", {"scripts": bad[:5]}))
             return {"diffs": D, "nontrivial": True, "outcome": "tables:sigmatch=%s" % sig_match, "states": ns, "transitions": ne + n2, "traces": 1,
                     "shipped_signature_matches_grammar": sig_match, "lr_states": ns, "entries_compared": ne + n2, "keys": ["tables", "tables-shipped"]}
+        finally:
+            shutil.rmtree(tmp, ignore_errors=True)
+    if case["kind"] == "ext":
+        tmp = tempfile.mkdtemp(prefix="c20e_", dir=sut.scratch_base())
+        try:
+            sut.copy_package(tmp, sut.root())
+            ext_dir = os.path.join(tmp, "ext")
+            os.makedirs(ext_dir)
+            open(os.path.join(ext_dir, "ext_parser.py"), "w").write(_EXT_MODULE)
+            env = dict(os.environ, PYTHONDONTWRITEBYTECODE="1", PYTHONHASHSEED="0")
+            where = "construction order %s (B = DDLParser, E = subclass with one more rule)" % "".join(case["order"])
+            for rnd in (0, 1):  # second round: the subclass's own table file (written next to its module by round 0) is loaded from disk
+                p = subprocess.run([sut.PYTHON, "-c", _WORK_EXT, tmp, ext_dir, json.dumps(case["order"])], capture_output=True, text=True, env=env, cwd=ext_dir)
+                line = [l for l in p.stdout.splitlines() if l.startswith("RESULT ")]
+                if not line:
+                    errl = [l for l in p.stderr.splitlines() if l.strip() and "yacc.py:" not in l]
+                    D.append(diff(where, "library-does-not-start", "results", " | ".join(errl[-3:])[:400]))
+                    break
+                for n, st in enumerate(json.loads(line[0][7:])):
+                    w2 = "%s, round %d, step %d (%s)" % (where, rnd, n, st["who"])
+                    if "error" in st:
+                        D.append(diff(w2, "raises", "result", st["error"]))
+                    else:
+                        if not st["tables_ok"]:
+                            D.append(diff(w2, "tables-differ-from-own-grammar", "tables of a fresh generation from this class's grammar", {"productions": st["n_productions"]}))
+                        got = [e for e in st["result"] if "table_name" not in e]
+                        if got != EXT_EXPECT[st["who"]] or len(st["result"]) != len(got) + 1:
+                            D.append(diff(w2, "results-differ", EXT_EXPECT[st["who"]], short(st["result"], 300)))
+                if D:
+                    break
+            return {"diffs": D, "nontrivial": True, "outcome": "ext", "states": len(case["order"]) + 1, "transitions": 2 * len(case["order"]), "traces": 2}
         finally:
             shutil.rmtree(tmp, ignore_errors=True)
     if case["kind"] == "inproc":
